@@ -534,6 +534,9 @@ func scripted(kind string, status int, form, shape string) func(*t_api.Request) 
 		if form == "error" {
 			return nil, t_api.NewError(st, fmt.Errorf("scripted"))
 		}
+		if form == "error-nested" {
+			return nil, t_api.NewError(st, t_api.NewError(t_api.StatusAIOSubmissionQueueFull, fmt.Errorf("scripted inner")))
+		}
 		ok := status < 30000
 		var p *promise.Promise
 		if ok {
@@ -1166,6 +1169,8 @@ func runChild(cases []Case, listf string, from int, resf, curf string, seed int6
 			}
 		} else if c.Mode == "reqid" {
 			res.Problems, res.Sig, res.Observed = runReqId(e, c)
+		} else if c.Mode == "abandon" {
+			res.Problems, res.Sig, res.Observed = runAbandon(e, c)
 		} else if c.Mode == "auth" {
 			res.Problems, res.Sig, res.Observed = runAuth(e, c)
 		} else if c.Mode == "cursor" {
@@ -1481,4 +1486,47 @@ func clipB(b []byte) string {
 		return string(b[:200]) + "..."
 	}
 	return string(b)
+}
+
+// runAbandon: the client gives up (its own timeout, a closed connection) while the kernel is still working on its
+// request. The front end forwards what clients ask for; a client going away asks for nothing: the kernel sees the
+// one request and no other (in particular no release of the lock whose acquisition was abandoned, which may be a
+// re-acquisition by the execution that has held the lock all along).
+func runAbandon(e *env, c Case) (problems, sigs []string, observed string) {
+	e.stub.mu.Lock()
+	e.stub.captured = nil
+	e.stub.script = scripted("AcquireLock", 20100, "response", "full")
+	e.stub.delay = 400 * time.Millisecond
+	e.stub.mu.Unlock()
+	defer func() {
+		e.stub.mu.Lock()
+		e.stub.delay = 0
+		e.stub.mu.Unlock()
+	}()
+	if strings.HasSuffix(c.Endpoint, "http") {
+		hc := &nethttp.Client{Timeout: 100 * time.Millisecond}
+		b, _ := json.Marshal(map[string]any{"resourceId": "res", "executionId": "holder", "processId": "p", "ttl": 60000})
+		rq, _ := nethttp.NewRequest("POST", "http://"+e.httpAddr+"/locks/acquire", bytes.NewReader(b))
+		rq.Header.Set("Content-Type", "application/json")
+		if rs, err := hc.Do(rq); err == nil {
+			rs.Body.Close()
+		}
+	} else {
+		ctx, cancel := context.WithTimeout(context.Background(), 100*time.Millisecond)
+		_, _ = e.lc.AcquireLock(ctx, &pb.AcquireLockRequest{ResourceId: "res", ExecutionId: "holder", ProcessId: "p", Ttl: 60000})
+		cancel()
+	}
+	time.Sleep(1200 * time.Millisecond) // the kernel answers at 400 ms; anything the front end does about it follows
+	e.stub.mu.Lock()
+	var kinds []string
+	for _, r := range e.stub.captured {
+		kinds = append(kinds, r.Kind.String())
+	}
+	e.stub.mu.Unlock()
+	observed = fmt.Sprint(kinds)
+	if len(kinds) != 1 || kinds[0] != "AcquireLock" {
+		problems = append(problems, fmt.Sprintf("an acquire abandoned by its client after 100 ms (the kernel granted it after 400 ms) made the front end ask the kernel: %v", kinds))
+		sigs = append(sigs, "abandon:kernel-requests:"+c.Endpoint)
+	}
+	return
 }
